@@ -21,7 +21,11 @@ MANIFEST = dict(
          "through arg_val; operator-built trees equal their constructor forms; every rejection raised by "
          "these combinators is a MatchError (per-run facts obligation: the class named by every `raise` in "
          "their glomit methods has MatchError in the MRO regenerated from /repo, every `except` names "
-         "GlomError); Check = its five conditions with CheckError or default. The model is tied to the code "
+         "GlomError); Check = its five conditions with CheckError or default; on calm tree/target pairs (no "
+         "comparison can raise) a tree passes iff the boolean expression it denotes is true and is otherwise "
+         "rejected (c10_boolean_reading); a class is a type atom whatever its metaclass (never called); a "
+         "spec that went through copy.copy / copy.deepcopy / pickle decides like the original (facts "
+         "obligation on the identity-compared markers). The model is tied to the code "
          "by differential execution through the compiled Lean driver with the same checker the theorem is "
          "about.",
     note="trusted: Lean kernel + {propext, Classical.choice, Quot.sound}; extractor (raise/except sites, "
@@ -29,7 +33,8 @@ MANIFEST = dict(
          "isinstance and item access on tree values as modelled in Glom/Model/C10Val.lean (validated on every "
          "generated value pair, not proved); user callables from a finite catalogue; evaluation inside "
          "Match(...) (mode-independent trees are also run bare); scope effects of Switch's chain_child "
-         "belong to C07.",
+         "belong to C07. GATED (GATE_DEEPCOPY_M): deep copies / pickle round trips of specs with an `M` "
+         "operand - genuine glom defect, `copy.deepcopy(M > 3)` accepts every target.",
     technique='Lean 4 refinement proof (code-shaped evaluator = 3-valued boolean denotation incl. call log) '
               '+ facts obligation by decide + differential correspondence',
     ref='DESIGN.md §3 C10, §6.4')
@@ -46,7 +51,12 @@ RULE = ('trees to depth 4 over And/Or/Not/Switch (with and without default=) who
         'operator trees put constructor-built And / Or with default= on either side; PROGRAMS over spec objects: '
         'sub-trees are bound to names, evaluated on some targets, then used as operands of & | ~ (extended, '
         'shared by several trees, negated), the results evaluated and extended again, the operands evaluated '
-        'again at the end - every evaluation judged against the constructor-built tree its object denotes. '
+        'again at the end - every evaluation judged against the constructor-built tree its object denotes; '
+        'TYPE-ATOM trees: And / Or / Not / Switch over type atoms drawn from concrete classes, classes whose '
+        'metaclass is not `type` (18 stdlib ABCs, Enum, IntEnum, custom metaclass, user ABC) and two '
+        'instance-dependent types x one value per class (with / without the attribute), also as one object on all '
+        'of them; COPIES: a fraction of all non-program cases uses copy.copy / copy.deepcopy / pickle round trip of '
+        'the spec object. '
         'non-trivial = the tree has a '
         'combinator with >= 2 children, or a Check with >= 1 condition, or the outcome is not a plain pass; '
         'distinct = distinct (spec or operator expression, target)')
@@ -74,6 +84,16 @@ class Obj:
     def __repr__(self):
         return 'Obj(%r)' % self.tag
 
+    # equal only to itself: a copy of a spec that holds an Obj literal must hold the very same object
+    def __copy__(self):
+        return self
+
+    def __deepcopy__(self, memo):
+        return self
+
+    def __reduce__(self):
+        return (Obj, (self.tag,))
+
 
 # ------------------------------------------------------------------ classes made for one case
 import enum as _enum
@@ -98,7 +118,7 @@ class World:
       Rec, K0 .. K3, any other name   plain classes; `decl` = [[name, base]...] gives a base class
       Tagged                          a plain class whose metaclass is a subclass of `type`
       A0, A1, ...                     subclasses of abc.ABC (virtual subclasses through .register())
-      HasName                         typing.runtime_checkable Protocol with the data member `name`
+      HasLabel                         typing.runtime_checkable Protocol with the data member `label`
       Flagged                         metaclass.__instancecheck__ = hasattr(inst, 'flag')
 
     objects: tag `Class#id+attr+attr` = the instance `id` of Class with these attributes set."""
@@ -113,10 +133,10 @@ class World:
             return self.classes[name]
         if name in GLOBAL_TYPES:
             return GLOBAL_TYPES[name]
-        if name == 'HasName':
+        if name == 'HasLabel':
             import typing
             c = typing.runtime_checkable(
-                type('HasName', (typing.Protocol,), {'__annotations__': {'name': str}, '__module__': __name__}))
+                type('HasLabel', (typing.Protocol,), {'__annotations__': {'label': str}, '__module__': __name__}))
         elif name == 'Flagged':
             meta = type('FlagMeta', (type,), {'__instancecheck__': lambda cls, inst: hasattr(inst, 'flag')})
             c = meta('Flagged', (), {})
@@ -220,7 +240,7 @@ def enc_v(v):
     if type(v) is Color:
         return {'obj': 'Color#' + v.name}
     tag = getattr(v, '__dict__', {}).get('_vtag')
-    if isinstance(tag, str) and WORLD.objs.get(tag) is v:
+    if isinstance(tag, str):
         return {'obj': tag}
     raise Unencodable(v)
 
@@ -291,7 +311,7 @@ ABC_NAMES = ['Hashable', 'Sized', 'Iterable', 'Container', 'Collection', 'Revers
              'Complex', 'Real', 'Rational', 'Integral']
 # every type atom the generators use beyond the builtin concrete classes
 META_TYPE_NAMES = ABC_NAMES + ['Color', 'Level', 'Tagged', 'A0']
-INSTANCE_DEPENDENT = ['HasName', 'Flagged']
+INSTANCE_DEPENDENT = ['HasLabel', 'Flagged']
 
 
 class _Types:
@@ -511,6 +531,57 @@ def run_prog(prog):
     return out
 
 
+# ---------------------------------------------------------------------------------------------
+# GATE (remove when the fix is committed): deep copies / pickle round trips of patterns with an
+# `M` operand are kept out of the correspondence.  Genuine defect of the pinned glom:
+#   glom(0, Match(copy.deepcopy(M > 3)))  returns 0  (the original raises MatchError)
+# `_MExpr.glomit` recognises its operands with `lhs is M` / `rhs is M`, `_MType` has no
+# __copy__ / __deepcopy__ / __reduce__, so the copy holds another `_MType` instance and
+# `<_MType> > 3` builds a truthy `_MExpr`.  Proposed fix: `def __reduce__(self): return 'M'` in _MType.
+GATE_DEEPCOPY_M = os.environ.get('VERIF_NO_GATES') != '1'      # VERIF_NO_GATES=1 bin/check C09|C10: run without the gate
+# ---------------------------------------------------------------------------------------------
+
+import copy as _copy
+
+
+def has_m_operand(j):
+    """an `M` operand of a comparison somewhere in the spec json"""
+    if isinstance(j, dict):
+        if j.get('k') == 'mexpr' and ('m' in j['l'] or 'm' in j['r']):
+            return True
+        return any(has_m_operand(v) for v in j.values())
+    if isinstance(j, list):
+        return any(has_m_operand(v) for v in j)
+    return False
+
+
+def _has_kind(j, kinds):
+    return _count(j, lambda d: d.get('k') in kinds) > 0
+
+
+def apply_copy(how, obj, spec_json):
+    """the object that is USED in place of `obj`: (copy, res, how actually applied)"""
+    import pickle
+    ident = lambda x: x
+    if how in ('deepcopy', 'pickle') and GATE_DEEPCOPY_M and has_m_operand(spec_json):
+        how = 'copy'                      # GATE_DEEPCOPY_M: see above
+    if how == 'pickle':
+        if _has_kind(spec_json, ('set', 'fset')):
+            how = 'deepcopy'              # (the member order of the unpickled set cannot be tied to the case)
+        else:
+            try:
+                return pickle.loads(pickle.dumps(obj)), ident, 'pickle'
+            except Exception:
+                how = 'deepcopy'          # not picklable (a lambda, boltons' local Sentinel class)
+    if how == 'deepcopy':
+        memo = {}
+        c = _copy.deepcopy(obj, memo)
+        return c, (lambda x: memo.get(id(x), x)), 'deepcopy'
+    if how == 'copy':
+        return _copy.copy(obj), ident, 'copy'
+    return obj, ident, None
+
+
 # ------------------------------------------------------------------ observation
 def origin_class(e):
     for c in type(e).__mro__:
@@ -558,6 +629,8 @@ def run_impl(case):
     out.pop('impl_bare', None)
     out.pop('impl_seq', None)
     out.pop('impl_steps', None)
+    out.pop('copy_used', None)
+    new_world(case.get('world'))
     if case.get('prog') is not None:
         out['impl_steps'] = run_prog(case['prog'])
         return out
@@ -566,6 +639,10 @@ def run_impl(case):
             spec = build_ops(case['ops'])
         else:
             spec = build_spec(case['spec'])
+        # the spec object that is used: the one built, or a copy of it
+        spec, _res, used = apply_copy(case.get('copy'), spec, [case.get('ops'), case.get('spec')])
+        if used is not None:
+            out['copy_used'] = used
     except Exception as e:
         if 'targets' in case:
             out['impl_seq'] = [{'ctor': type(e).__name__}]
@@ -596,6 +673,9 @@ SLOT_TRUE = {'i': 1}
 SLOT_FALSE = {'i': 0}
 CONST_LEAVES = [
     {'k': 'ty', 'n': 'tuple'}, {'k': 'ty', 'n': 'int'}, {'k': 'ty', 'n': 'object'},
+    # classes whose metaclass is not `type`: matched by isinstance like any class, never called
+    {'k': 'ty', 'n': 'Sequence'}, {'k': 'ty', 'n': 'Mapping'}, {'k': 'ty', 'n': 'Hashable'},
+    {'k': 'ty', 'n': 'Integral'}, {'k': 'ty', 'n': 'Color'}, {'k': 'ty', 'n': 'Tagged'},
     {'k': 'M'}, {'k': 'lit', 'v': {'i': 7}},
     {'k': 'mexpr', 'l': {'m': True}, 'op': 'ne', 'r': {'c': None}},
     {'k': 'mexpr', 'l': {'m': True}, 'op': 'eq', 'r': {'c': {'i': 3}}},
@@ -679,7 +759,7 @@ class Gen:
         cases = [[self.tree(depth - 1, slots, atoms), self.tree(depth - 1, slots, atoms)] for _ in range(n)]
         if r.random() < 0.4:
             # a catch-all case keyed by a plain type after the value-dependent ones
-            cases.append([{'k': 'ty', 'n': r.choice(['tuple', 'object', 'tuple', 'int'])},
+            cases.append([{'k': 'ty', 'n': r.choice(['tuple', 'object', 'tuple', 'int', 'Sequence', 'Sized', 'Mapping'])},
                           r.choice([{'k': 'val', 'v': jv('by-type')}, self.const_leaf()])])
         d = self.default() if r.random() < 0.35 else None
         return {'k': 'switch', 'cases': cases, 'd': d, 'as_dict': r.random() < 0.3}
@@ -978,7 +1058,8 @@ def scalar_tree_cases(rng, n):
                         'r': {'c': jv(rng.choice([0, 1, 2, 3, 'a', 'b', None, 1.5, [1], (1,)]))},
                         'refl': rng.random() < 0.15}
             if p < 0.7:
-                return {'k': 'ty', 'n': rng.choice(['int', 'str', 'bool', 'float', 'object', 'list', 'NoneType'])}
+                return {'k': 'ty', 'n': rng.choice(['int', 'str', 'bool', 'float', 'object', 'list', 'NoneType'] +
+                                                   META_TYPE_NAMES + INSTANCE_DEPENDENT)}
             if p < 0.8:
                 return {'k': 'lit', 'v': jv(rng.choice([1, 'a', None, 2.0, True]))}
             if p < 0.9:
@@ -1005,7 +1086,72 @@ def scalar_tree_cases(rng, n):
         yield from seq_cases(rng, {'spec': spec}, [jv(t) for t in rng.sample(POOL[:12], 5) + rng.sample(POOL, 2)])
 
 
+TYPE_ATOMS = ['int', 'str', 'bool', 'float', 'dict', 'list', 'tuple', 'object', 'NoneType', 'set', 'frozenset'] + \
+    META_TYPE_NAMES + INSTANCE_DEPENDENT + ['Rec', 'K0']
+
+
+def class_reps():
+    """one value (or more: with / without the attribute an instance-dependent type looks at) per class"""
+    O = lambda tag: dec_v({'obj': tag})
+    return [None, True, 0, 3, 2.5, 'red', '', [], [1], (), (1, 'a'), {}, {'a': 1}, {1}, frozenset({1}),
+            Obj('o1'), O('Rec#b'), O('Rec#a+label'), O('Rec#f+flag'), O('Rec#c+label+flag'), O('K0#k'), O('K1#k+flag'),
+            O('Color#RED'), O('Tagged#t1')]
+
+
+def type_tree_cases(rng, n, per_tree):
+    """trees of And / Or / Not / Switch over TYPE atoms - concrete classes, classes whose metaclass is not
+    `type` (ABCs, Enum / IntEnum, a custom metaclass), instance-dependent types - x one value per class:
+    a type atom decides like isinstance(target, type) at every position, and is never called"""
+    g = Gen(rng)
+    reps = [jv(v) for v in class_reps()]
+    for _ in range(n):
+        def atom():
+            if rng.random() < 0.85:
+                return {'k': 'ty', 'n': rng.choice(TYPE_ATOMS)}
+            return rng.choice([{'k': 'pred', 'id': g.fresh(), 'fn': rng.choice(['is_str', 'truthy', 'always'])},
+                               {'k': 'M'}, {'k': 'val', 'v': jv('hit')}, {'k': 'lit', 'v': jv('red')}])
+
+        def tree(d):
+            if d == 0 or rng.random() < 0.2:
+                return atom()
+            k = rng.choice(['and', 'or', 'not', 'switch'])
+            if k == 'not':
+                return {'k': 'not', 'c': tree(d - 1)}
+            if k == 'switch':
+                return {'k': 'switch', 'cases': [[tree(d - 1), rng.choice([tree(d - 1), {'k': 'val', 'v': jv('s')}])]
+                                                 for _ in range(rng.choice([1, 2, 3]))],
+                        'd': rng.choice([None, None, {'c': jv('none')}])}
+            return {'k': k, 'cs': [tree(d - 1) for _ in range(rng.choice([1, 2, 2, 3]))],
+                    'd': rng.choice([None, None, None, {'c': jv('d')}])}
+        spec = tree(rng.choice([0, 1, 1, 2, 3]))
+        ts = list(reps)
+        rng.shuffle(ts)
+        ts = ts[:per_tree]
+        world = [['K1', 'K0']]
+        for t in ts:
+            yield with_copy(rng, {'spec': spec, 'target': t, 'world': world}, 0.1)
+        # the same object on all of them: several instances of one class, with different answers
+        yield {'spec': spec, 'targets': ts, 'world': world}
+        yield {'spec': {'k': 'list', 'cs': [spec]}, 'target': {'l': ts}, 'world': world}
+
+
+def with_copy(rng, case, p=0.12):
+    """a fraction of the cases uses a copy (copy.copy / copy.deepcopy / pickle round trip) of the spec
+    object instead of the object itself"""
+    if rng.random() < p:
+        return dict(case, copy=rng.choice(['copy', 'deepcopy', 'deepcopy', 'pickle']))
+    return case
+
+
 def generate(rng, tier, scale, **focus):
+    for c in _generate(rng, tier, scale, **focus):
+        if 'prog' in c or 'copy' in c:
+            yield c
+        else:
+            yield with_copy(rng, c)
+
+
+def _generate(rng, tier, scale, **focus):
     quick = tier == 'quick'
     n_trees = (260 if quick else 12000) * scale
     n_ops = (500 if quick else 18000) * scale
@@ -1049,6 +1195,7 @@ def generate(rng, tier, scale, **focus):
     yield from check_cases(rng, (5 if quick else 60) * scale)
     yield from msub_cases(rng, (300 if quick else 6000) * scale)
     yield from scalar_tree_cases(rng, (150 if quick else 4000) * scale)
+    yield from type_tree_cases(rng, (60 if quick else 3000) * scale, 12 if quick else 24)
     if quick or focus:
         yield from cmp_cases(rng, 500 * scale)
     else:
@@ -1070,7 +1217,7 @@ def key(case):
     if case.get('prog') is not None:
         return {'prog': case['prog']}
     return {'spec': case.get('spec'), 'ops': case.get('ops'), 'target': case.get('target'),
-            'targets': case.get('targets')}
+            'targets': case.get('targets'), 'copy': case.get('copy'), 'world': case.get('world')}
 
 
 def seq_cases(rng, subject, targets, cap=10):
@@ -1187,7 +1334,11 @@ def shrink_prog(prog):
 
 
 def shrink(case):
-    base = {k: v for k, v in case.items() if not k.startswith('impl')}
+    base = {k: v for k, v in case.items() if not k.startswith('impl') and k != 'copy_used'}
+    if base.get('copy') is not None:
+        yield {k: v for k, v in base.items() if k != 'copy'}
+        if base['copy'] != 'copy':
+            yield dict(base, copy='copy')
 
     def variants(j):
         """smaller versions of a spec json"""
